@@ -178,6 +178,8 @@ def run(tier, seed, only=None):
             for ev in evs:
                 bad, ref = netlevel.check_adjust_event(ck, ev, tag="event")
                 for key, msg in bad:
+                    if key.endswith(":defect-undercounted") or key.endswith(":v=Ax-b"):
+                        key += ":" + net.kind.replace("-perturbed", "")
                     ck.violation(key, msg + " [%s subset %s case %d]" % (net.kind, list(s), i), dict(wit, input=txt))
             R = netlevel.physical_result(g.xml, fr)
             if si == 0:
@@ -243,6 +245,26 @@ def run(tier, seed, only=None):
                              "%.3g m between constraint sets %s and all" % (worst, list(s)), dict(wit, input=txt, base_input=txt0))
             if len(ck.samples) < 3:
                 ck.sample(dict(index=i, kind=net.kind, defect=defect, subset=list(s), alg=alg))
+    # witnesses of repaired defects (kept as regression inputs): the four algorithms must report the same defect,
+    # degrees of freedom and sum of squares
+    import os
+    for name in ("C08-repro-envelope-defect-undercounted.gkf",):
+        path = os.path.join(os.path.dirname(os.path.dirname(os.path.dirname(os.path.abspath(__file__)))), "findings", name)
+        if only is not None or not os.path.exists(path):
+            continue
+        txt = open(path).read()
+        runs = netlevel.run4(txt, ck.tmp, "regress-" + name.split(".")[0], trace=False)
+        vals = {}
+        for alg, g in runs.items():
+            if ck.sanitizer(g.rr, dict(regress=name, alg=alg), prefix="gama-local:"):
+                continue
+            if netlevel.outcome(g) == "adjusted":
+                vals[alg] = (g.xml["defect"], g.xml["dof"], round(g.xml["sum_of_squares"], 3))
+        ck.case(("regress", name))
+        if len(vals) == 4 and len(set(vals.values())) != 1:
+            ck.violation("regress:%s:defect-dof-ss" % name.split(".")[0],
+                         "the four algorithms disagree on (defect, dof, v'Pv) of a witness of a repaired defect: %s" % vals,
+                         dict(regress=name))
     ck.assumptions += ["numpy SVD null space of the recorded design matrix decides which constraint subsets are admissible",
                        "shape invariants compared to max(1e-6 m, first-order bound of what the documented linearisation criterion (0.0005 mm per observation) leaves open in the coordinates, from the recorded system)"]
     ck.minimum = dict(evaluations=tier_n(tier, 60, 2000), distinct=10)
